@@ -200,7 +200,15 @@ def _check_proofs_locked(fam, tier, prop, info, extra, mods):
         # regenerate model files from /repo's source text (DESIGN §2.5); a failed translation is
         # a broken proof obligation.  Regeneration, build and audit are one critical section
         # (another check of the same property against another tree must not interleave).
-        info["bad"].extend(pre())
+        try:
+            info["bad"].extend(pre())
+        except Exception as e:  # noqa: a translator that cannot digest the source at all
+            # (source outside the translated subset in a way its own checks did not anticipate):
+            # the model was NOT regenerated from this tree, so the tie is broken, not the check
+            import traceback
+            info["bad"].append("source translation crashed (%s: %s) at %s; generated model files "
+                               "may be stale" % (type(e).__name__, str(e)[:200],
+                                                 traceback.format_exc().strip().split("\n")[-3].strip()[:160]))
     ok, log = leanproj.lake_build(mods + ["CtrlVerif.Driver.All"])
     names = leanproj.theorems_of(prop, extra)
     info["obligations"] = len(names)
